@@ -2,6 +2,7 @@
 // the library's own Value). Copy-assignment and move-assignment where source and destination are related
 // (an array assigned from the array of one of its own items) must behave like the plain-sequence model.
 //   atree <op;op;…>   ops:  n<path>:<id>   append a new node <id> to the kids of the node at <path>
+//                           a<dst>=<src>   node(dst).kids += node(src)   (const Node&; src may be an item of node(dst).kids itself)
 //                           c<dst>=<src>   node(dst).kids = node(src).kids          (copy assignment)
 //                           m<dst>=<src>   node(dst).kids = Move(node(src).kids)    (move assignment)
 //                           r<path>        node(path).kids.Reset()
@@ -58,6 +59,11 @@ static std::string run(const std::string &prog) {
                 Node nn;
                 nn.id = unsigned(atoi(rest.c_str() + c + 1));
                 p->kids += Memory::Move(nn);
+            } else if (k == 'a') {
+                size_t e = rest.find('=');
+                Node  *d = at(root, rest.substr(0, e)), *s = at(root, rest.substr(e + 1));
+                if (!d || !s) return "bad-path";
+                d->kids += static_cast<const Node &>(*s);
             } else if (k == 'c' || k == 'm') {
                 size_t e = rest.find('=');
                 Node  *d = at(root, rest.substr(0, e)), *s = at(root, rest.substr(e + 1));
